@@ -40,6 +40,11 @@ class Facts:
             self.by_path.setdefault(b["path"], []).append(b)
         if canonicalise:
             try:
+                inline_new_helpers(self)
+            except Exception:
+                pass
+        if canonicalise:
+            try:
                 canonicalise_locals(self.bodies)
             except Exception:
                 pass
@@ -562,6 +567,187 @@ def local_fingerprints(body):
 
 
 _LOCAL_REF = None
+_FN_REF = None
+
+
+def _subst_locals(n, mapping, offset):
+    """Deep copy of a callee body with its local ids shifted by `offset` and the locals in `mapping` (callee id -> replacement node) replaced."""
+    if isinstance(n, list):
+        return [_subst_locals(x, mapping, offset) for x in n]
+    if not isinstance(n, dict):
+        return n
+    if n.get("k") == "Local" and n.get("id") in mapping:
+        return _deep(mapping[n["id"]])
+    out = {}
+    for k, v in n.items():
+        if k == "id" and isinstance(v, int) and n.get("k") in ("Local", "Bind", "While", "For", "Loop", "Block", "Closure"):
+            out[k] = v + offset
+        elif k == "target" and isinstance(v, int):
+            out[k] = v + offset
+        else:
+            out[k] = _subst_locals(v, mapping, offset)
+    return out
+
+
+def inline_new_helpers(F):
+    """Normal form: a call of a crate function that the reference tree (refs/functions.json) does not have — a helper extracted by a later
+    refactoring — is replaced by the helper's body, parameters substituted (places and simple expressions directly, anything else through a
+    fresh `let`), local ids shifted.  Only helpers without `return`; a helper that uses `?` is inlined only where its own result is propagated
+    with `?` (its tail `Ok(e)` becomes `e`; the `?`s inside then propagate from the caller, which is what the call with `?` did).  The
+    statements of an inlined block that sits in a `let` initialiser or an expression statement are hoisted in front of that statement."""
+    global _FN_REF
+    import json
+    if _FN_REF is None:
+        p = os.path.join(os.path.dirname(os.path.dirname(os.path.abspath(__file__))), "refs", "functions.json")
+        _FN_REF = set(json.load(open(p))) if os.path.exists(p) else None
+    if not _FN_REF:
+        return
+    new = {}
+    for b in F.bodies:
+        if b["path"] in _FN_REF or not b["file"].startswith("src/") or b.get("impl_trait") or not isinstance(b.get("body"), dict) or b.get("body", {}).get("k") != "Block":
+            continue
+        if len(F.by_path.get(b["path"], [])) != 1:
+            continue
+        body = b["body"]
+        has_ret = any(x.get("k") == "Ret" for x in walk(body, into_closures=False))
+        has_try = any(x.get("k") == "Try" for x in walk(body, into_closures=False))
+        calls_self = any(x.get("k") in ("Call", "MCall") and ((callee(x) if x.get("k") == "Call" else x.get("def")) == b["path"]) for x in walk(body))
+        if has_ret or calls_self or not all(p_.get("k") == "Bind" for p_ in b["params"]):
+            continue
+        new[b["path"]] = (b, has_try)
+    if not new:
+        return
+    counter = [0]
+
+    def simple_arg(a):
+        x = a
+        while isinstance(x, dict) and x.get("k") in ("Ref", "Paren", "DropTemps", "Use"):
+            x = x.get("e")
+        if not isinstance(x, dict):
+            return False
+        if x.get("k") in ("Local", "Lit", "Path"):
+            return True
+        return x.get("k") == "Field" and place(x) is not None
+
+    def expand(call, under_try):
+        """-> Block node or None."""
+        if call.get("k") == "Call":
+            d = callee(call)
+            args = list(call.get("args", []))
+        else:
+            d = call.get("def")
+            args = [call["recv"]] + list(call.get("args", []))
+        if d not in new:
+            return None
+        hb, has_try = new[d]
+        if has_try and not under_try:
+            return None
+        if len(hb["params"]) != len(args):
+            return None
+        counter[0] += 1
+        off = 1000000 * counter[0]
+        mapping, lets = {}, []
+        for prm, a in zip(hb["params"], args):
+            if simple_arg(a):
+                mapping[prm["id"]] = a
+            else:
+                nid = prm["id"] + off
+                lets.append({"k": "LetS", "pat": dict(_deep(prm), id=nid), "init": a, "sp": a.get("sp")})
+                mapping[prm["id"]] = {"k": "Local", "id": nid, "name": prm["name"], "ty": prm.get("ty"), "sp": a.get("sp")}
+        body = _subst_locals(hb["body"], mapping, off)
+        tail = body.get("expr")
+        if has_try:
+            t = tail
+            while isinstance(t, dict) and t.get("k") == "Block" and not t.get("stmts") and t.get("expr") is not None:
+                t = t["expr"]
+            if not (isinstance(t, dict) and t.get("k") == "Call" and (callee(t) or "").split("::")[-1] == "Ok" and len(t.get("args", [])) == 1):
+                return None
+            tail = t["args"][0]
+        return {"k": "Block", "stmts": lets + list(body.get("stmts", [])), "expr": tail, "ty": call.get("ty"), "sp": call.get("sp"), "_inlined": d}
+
+    def visit(n, depth):
+        """Replace eligible calls inside n (in place); returns True when something was inlined."""
+        hit = False
+        if isinstance(n, list):
+            for x in n:
+                hit = visit(x, depth) or hit
+            return hit
+        if not isinstance(n, dict):
+            return False
+        for k, v in list(n.items()):
+            if isinstance(v, dict):
+                tgt, under = v, False
+                if v.get("k") == "Try" and isinstance(v.get("e"), dict) and v["e"].get("k") in ("Call", "MCall"):
+                    tgt, under = v["e"], True
+                blk = expand(tgt, under) if tgt.get("k") in ("Call", "MCall") and depth < 4 else None
+                if blk is not None:
+                    visit(blk, depth + 1)
+                    n[k] = blk
+                    hit = True
+                else:
+                    hit = visit(v, depth) or hit
+            elif isinstance(v, list):
+                for i, x in enumerate(v):
+                    if isinstance(x, dict):
+                        tgt, under = x, False
+                        if x.get("k") == "Try" and isinstance(x.get("e"), dict) and x["e"].get("k") in ("Call", "MCall"):
+                            tgt, under = x["e"], True
+                        blk = expand(tgt, under) if tgt.get("k") in ("Call", "MCall") and depth < 4 else None
+                        if blk is not None:
+                            visit(blk, depth + 1)
+                            v[i] = blk
+                            hit = True
+                        else:
+                            hit = visit(x, depth) or hit
+        return hit
+
+    def hoist(blk):
+        """Splice the statements of inlined blocks that are a statement's whole expression / a let's initialiser in front of that statement."""
+        if isinstance(blk, list):
+            for x in blk:
+                hoist(x)
+            return
+        if not isinstance(blk, dict):
+            return
+        for v in blk.values():
+            if isinstance(v, (dict, list)):
+                hoist(v)
+        if blk.get("k") == "Block" and blk.get("stmts") is not None:
+            out = []
+            for st in blk["stmts"]:
+                key = "init" if st.get("k") == "LetS" else ("e" if st.get("k") in ("ExprS", "Semi") else None)
+                e = st.get(key) if key else None
+                holder, hk = st, key
+                # look through one assignment / compound assignment / deref-free wrapper on the way to the inlined block
+                if isinstance(e, dict) and e.get("k") in ("Assign", "AssignOp") and isinstance(e.get("r"), dict):
+                    holder, hk, e = e, "r", e["r"]
+                if isinstance(e, dict) and e.get("k") == "Block" and e.get("_inlined") and e.get("stmts"):
+                    out.extend(e["stmts"])
+                    if e.get("expr") is not None:
+                        holder[hk] = e["expr"]
+                        out.append(st)
+                    elif st.get("k") != "LetS":
+                        pass
+                    else:
+                        out.append(st)
+                else:
+                    out.append(st)
+            blk["stmts"] = out
+            te = blk.get("expr")
+            if isinstance(te, dict) and te.get("k") == "Block" and te.get("_inlined") and blk is not te:
+                blk["stmts"] = blk["stmts"] + list(te.get("stmts", []))
+                blk["expr"] = te.get("expr")
+    for b in F.bodies:
+        if b["path"] in new or not isinstance(b.get("body"), dict):
+            continue
+        if visit(b["body"], 0):
+            hoist(b["body"])
+            b["_inlined_helpers"] = True
+            try:
+                normalise_loops(b)
+                simplify_lets(b)
+            except Exception:
+                pass
 
 
 def canonicalise_locals(bodies):
@@ -727,6 +913,32 @@ def simplify_lets(body):
             if ps and ps[-1].get("k") in ("Assign", "AssignOp") and ps[-1].get("r") is x:
                 subst[lid] = n["init"]
                 drop.append(n)
+    # (2b) an immutable pure `let` used exactly once, in the *very next* statement, at a point that statement evaluates before any effect (the
+    #      condition of an `if`, the initialiser of a `let`, the right-hand side of an assignment — all pure): nothing can change between the
+    #      two, so the value can be written where it is used even when it reads fields that are assigned elsewhere
+    for blk in walk(root):
+        if blk.get("k") != "Block" or not blk.get("stmts"):
+            continue
+        seq = list(blk["stmts"]) + ([{"k": "ExprS", "e": blk["expr"], "_tail": True}] if blk.get("expr") is not None else [])
+        for a, b_ in zip(seq, seq[1:]):
+            if a.get("k") != "LetS" or a["pat"].get("k") != "Bind" or "init" not in a or "Mut)" in a["pat"].get("mode", "") or "els" in a:
+                continue
+            lid = a["pat"]["id"]
+            if lid in subst or lid in assigned_locals or not _pure_expr(a["init"]) or len(uses.get(lid, [])) != 1:
+                continue
+            e = b_.get("init") if b_.get("k") == "LetS" else (b_.get("e") if b_.get("k") in ("ExprS", "Semi") else None)
+            zone = None
+            if isinstance(e, dict) and e.get("k") == "If" and e["c"].get("k") != "Let":
+                zone = e["c"]
+            elif isinstance(e, dict) and e.get("k") in ("Assign", "AssignOp") and peel(e["l"]).get("k") in ("Local", "Field"):
+                zone = e["r"]
+            elif b_.get("k") == "LetS" and isinstance(e, dict):
+                zone = e
+            if zone is None or not _pure_expr(zone):
+                continue
+            if any(x is uses[lid][0][0] for x in walk(zone)):
+                subst[lid] = a["init"]
+                drop.append(a)
     if subst:
         def repl(e):
             if isinstance(e, dict):
